@@ -779,3 +779,39 @@ def t37():
     m = Made()
     return (m.add3(1), m.lam(4), m.plain(), m.plain(7), Made.add3(m, 1), Made.later_static(4), m.later_static(5), m.later_class(6),
             Made.stat(m, 1))
+
+
+class WithClassDefault(object):
+    FACTOR = 3
+    TABLE = (1, 2)
+
+    def scaled(self, v, k=FACTOR, t=TABLE):
+        return v * k + t[1]
+
+
+def t38():
+    w = WithClassDefault()
+    WithClassDefault.FACTOR = 10        # later rebinding does not change the default already evaluated
+    return (w.scaled(2), w.scaled(2, 5), WithClassDefault.scaled(w, 1))
+
+
+from typing import NamedTuple, Optional      # noqa: E402
+
+
+class Terms(NamedTuple):
+    step: int
+    offset: int = 1
+    scale: Optional[float] = 2.0
+
+    def total(self):
+        return self.step + self.offset
+
+
+_TABLE = (Terms(1), Terms(2, 3), Terms(step=4, scale=0.5))
+
+
+def t39():
+    a, b, c = _TABLE
+    step, offset, scale = b
+    return (a.total(), b.total(), c.scale, step, offset, scale, a == Terms(1, 1, 2.0), a[0], len(c), c._replace(step=9).step, c._fields,
+            isinstance(a, tuple))
